@@ -11,7 +11,7 @@ HEADER = ("From Aqua Require Import Base Trace Handler HandlerCases MergeCases.\
 TYPE = "case_t"
 
 
-def evaluate_handler(cases, result, oracle_fn, tag, what, shard_size=50):
+def evaluate_handler(cases, result, oracle_fn, tag, what, shard_size=80):
     if not cases:
         return
     outs = vlib.harness_lines("handler", [json.dumps({"rounds": c["rounds"]}) for c in cases], timeout=1800)
